@@ -1,7 +1,38 @@
 F = 'xenium/ramalhete_queue.hpp'
 Q = r'ramalhete_queue<T, Policies\.\.\.>::'
 
-import re
+import re, os
+from xvlib import lower as _L
+
+def raii_nodes(text, lw):
+    """unit-local rule for  `auto X = std::make_unique<node>(ARG);`  (a node owned by a local RAII object):
+       = `node* X = new node(ARG);`, X.get() = X, X.release() = XV_UP_RELEASE(X) (returns the pointer, X becomes null), and the
+       destructor of X - XV_UP_DTOR(X): delete the node if X is not null - at EVERY exit of the enclosing block after the declaration:
+       the end of the block and every return / continue / break / exceptional exit inside it."""
+    while True:
+        m = re.search(r'\bauto (\w+) = std::make_unique<node>\(([^;]*)\);', text)
+        if not m: return text
+        x, arg = m.group(1), m.group(2)
+        # the enclosing block: scan forward from the declaration to the brace that closes it
+        d = 0; j = m.end()
+        while True:
+            c = text[j]
+            if c == '{': d += 1
+            elif c == '}':
+                if d == 0: break
+                d -= 1
+            j += 1
+        inner = text[m.end():j]
+        inner = re.sub(r'\b%s\.get\(\)' % x, x, inner)
+        inner = re.sub(r'\b%s\.release\(\)' % x, 'XV_UP_RELEASE(%s)' % x, inner)
+        inner = re.sub(r'\b(return\b[^;]*;|continue;|break;)', lambda k: '{ XV_UP_DTOR(%s); %s }' % (x, k.group(1)), inner)
+        # an allocation failure leaves X null: nothing to destroy on that exit (handled by may_throw right after the declaration)
+        text = text[:m.start()] + 'node* %s = new node(%s);' % (x, arg) + inner + ' XV_UP_DTOR(%s);\n' % x + text[j:]
+        lw.fire('raii_node')
+
+def pre_rules(text, lw):
+    return node_vars(raii_nodes(text, lw), lw)
+
 def node_vars(text, lw):
     """unit-local rule: every local that holds a node (guard_ptr x; node* x = ...; auto x = new node / _head.load) is dereferenced with GDEREF"""
     names = set()
@@ -26,13 +57,14 @@ COMMON = dict(
                (r'\bdelete (\w+)\.get\(\);', r'XV_DELETE_NODE(\1);', 'delete_node')],
     subst=[(r'\btraits::', 'TR_', 'traits'), (r'\bstd::ignore\s*=', '(void)', 'ignore'), (r'\bstd::nullopt\b', 'XV_NULLOPT', 'nullopt'),
            (r'\bmarked_(ptr|value)\b(?!\()', r'marked_\1_t', 'type_name')],
-    py_pre=node_vars,
+    py_pre=pre_rules,
     # nodes are kept as one small array per member (cheap for cbmc): node->member becomes N_member(node)
     post_subst=[(r'GDEREF\((\w+)\)->entries\[([^\]]+)\]\.value', r'N_entry(\1, \2)', 'node_entry'),
                 (r'GDEREF\((\w+)\)->(\w+)', r'N_\2(\1)', 'node_member')],
 )
 PUSH = dict(COMMON, file=F, sig=r'void ' + Q + r'push\(value_type value\)', may_throw=['XV_NEW_NODE'],
-            must_fire={'A_LOAD': 3, 'A_FADD': 1, 'A_CAS': 4, 'A_STORE': 1, 'method:acquire': 1, 'subst:new_node': 1, 'subst:delete_node': 1,
+            # (no count for the roll-back statements - push_idx store, delete - : a variant that frees the node through an RAII object has none)
+            must_fire={'A_LOAD': 3, 'A_FADD': 1, 'A_CAS': 4, 'method:acquire': 1, 'subst:new_node': 1,
                        'subst:traits': 3, 'throw': 1, 'subst:backoff_call': 1})
 POP = dict(COMMON, file=F, sig=r'auto ' + Q + r'pop\(\) -> std::optional<value_type>', dflt='XV_NULLOPT',
            must_fire={'A_LOAD': 7, 'A_FADD': 1, 'A_CAS': 1, 'A_XCHG': 1, 'method:acquire': 1, 'method:reclaim': 1, 'subst:traits': 2,
@@ -107,6 +139,20 @@ RUNS = (
           note='end-to-end scenario on the original loop: a competing producer links its node between the load of next and the CAS')
 )
 
+def extra_constants():
+    """every further `static constexpr unsigned NAME = EXPR;` of the class (e.g. an index mask) becomes `#define NAME (EXPR)` - the value is
+       still extracted by the engine on every run; only the LIST of names is read here"""
+    try:
+        src = _L.strip_comments(_L.read_source(os.path.join(os.environ.get('XV_REPO', '/repo'), F)))
+    except OSError:
+        return []
+    out = []
+    for m in re.finditer(r'static constexpr unsigned (\w+) =\s*([^;]+);', src):
+        name, val = m.group(1), m.group(2)
+        if name in ('step_size', 'max_idx', 'entries_per_node', 'pop_retries') or '::' in val: continue
+        out.append(dict(name=name, file=F, regex=r'static constexpr unsigned %s =\s*([^;]+);' % name))
+    return out
+
 UNIT = dict(
   title='ramalhete_queue: index map, node ctor/dtor, push, pop, try_pop, queue ctor/dtor (C04, C07)',
   properties=['C04', 'C07'],
@@ -137,7 +183,7 @@ UNIT = dict(
     dict(name='XV_POP_SLOT_VAR', file=F, regex=r'\n\s*(\w+) [-+*/%&|^]?=[^;=]*;\s*auto \w+ = \w+->entries\[\w+\]'),
     dict(name='XV_DTOR_SLOT_EXPR', file=F, regex=r'traits::delete_value\(entries\[([^\]]+)\]'),
     dict(name='XV_DTOR_SLOT_VAR', file=F, regex=r'~node\(\) override \{.*?for \(unsigned (\w+) = '),
-  ],
+  ] + extra_constants(),
   sources=[
     dict(NODE, id='node_ctor', sig=r'explicit node\(raw_value_type item\)', ctor=True,
          c_sig='static void ram_node_ctor(marked_ptr self, raw_value_type item)',
